@@ -11,8 +11,8 @@ from harness.common import pmap
 
 def cfg_of(f):
     """the fixed configuration a format is used with inside a chain (Convert!CfgOf)"""
-    if f == "docstring":
-        return {"style": "rest", "edd": True, "et": True}
+    if f.startswith("docstring"):
+        return {"style": f.split("_")[1] if "_" in f else "rest", "edd": True, "et": True}
     return {"fmt": f, "style": "rest", "edd": False, "ann": True, "kwonly": True}
 
 
@@ -21,7 +21,13 @@ def real_hop(f, ir):
     from harness import real
 
     c = cfg_of(f)
-    if f == "docstring":
+    if f == "json_schema":
+        _, back = real.rt_json(ir)
+        return back
+    if f in ("sqlalchemy", "sqlalchemy_table"):
+        _, back = real.rt_sql(ir, f, style="rest", force_pk=True)
+        return back
+    if f.startswith("docstring"):
         _, back = real.rt_docstring(ir, style=c["style"], edd=c["edd"], et=c["et"], parse_edd=False)
         # a docstring carries no name
         back.setdefault("name", ir.get("name"))
